@@ -253,7 +253,8 @@ func staleCtxSweep(c *Ctx) {
 		{"a hook of the logger", false, func(b zerolog.Logger, p probeObj, _ context.Context) {
 			l := b.Hook(probeHook{p.seen})
 			l.Info().Msg("h")
-			l.Output(w).Log().Msg("h")
+			lo := l.Output(w)
+			lo.Log().Msg("h")
 		}},
 		{"Info().Ctx(mine).Object(k, m) and its nested Dict().Object / Arr().Object", true, func(b zerolog.Logger, p probeObj, mine context.Context) {
 			b.Info().Ctx(mine).Object("o", p).Dict("d", zerolog.Dict().Object("o", p)).Array("a", zerolog.Arr().Object(p)).Msg("")
